@@ -408,7 +408,30 @@ func init() {
 			{Name: "long", N: c12LongN, Run: c12Long, Exhaustive: true},
 			{Name: "periodic", N: c12PeriodicN, Run: c12Periodic, Exhaustive: true},
 			{Name: "byte-heavy", N: c12ByteHeavyN, Run: c12ByteHeavy, Exhaustive: true},
+			{Name: "padded-bounds", N: c12PaddedN, Run: c12Padded, Exhaustive: true},
 			{Name: "direct", N: func(c *Ctx) int { return tierN(c, 40000, 8000000) }, Run: c12Direct},
 		},
 	})
+}
+
+// c12Padded: integer literals written with leading zeros (the grammar's number is ["-"] 1*digit, so
+// 007 is 7) in every position of an index and a slice, with 1..1000 zeros: length caps, octal
+// readings and buffers sized for "the longest integer" all hide here.  Model and direct oracle agree
+// that the value is what counts.
+var c12PadZeros = []int{1, 2, 3, 7, 15, 16, 17, 18, 19, 20, 21, 30, 31, 32, 33, 34, 62, 63, 64, 65, 100, 127, 128, 129, 255, 256, 257, 1000, 5000}
+
+func c12PaddedN(c *Ctx) int { return len(c12PadZeros) }
+
+func c12Padded(c *Ctx, idx int) {
+	z := strings.Repeat("0", c12PadZeros[idx])
+	doc, _ := ref.FromJSON(`{"a":[0,1,2,3,4,5,6,7,8,9,10,11],"s":"abcdéfghij𝌆k"}`)
+	goDoc := ref.ToGo(doc, ref.JSONNumber)
+	for _, f := range []string{"a[" + z + "1:7:2]", "a[1:" + z + "7:2]", "a[1:7:" + z + "2]", "a[-" + z + "3:]", "a[:-" + z + "2]", "a[::-" + z + "1]", "s[::-" + z + "1]", "s[" + z + "2:" + z + "5]", "a[" + z + "3]", "a[-" + z + "1]", "a | [" + z + "0]",
+		"a[" + z + "]", "a[::" + z + "]", "a[" + z + ":" + z + ":" + z + "1]", "a[*] | [" + z + "2:]", "s[" + z + "9223372036854775807:]", "a[-" + z + "9223372036854775808:" + z + "4]", "a[" + z + "18446744073709551616]", "[a][" + z + "0][" + z + "1]",
+		"find_first(s, 'd', `" + "3`) == a[" + z + "3]", "a[?@ > `" + "2`][" + z + "1]", "a[" + z + "1:][" + z + "1:] | [" + z + "0]"} {
+		m, _ := c.CheckModel("C12", f, doc, goDoc, CheckOpts{Compiled: idx%2 == 0, Features: map[string]string{"stream": "padded-bounds", "zeros": fmt.Sprint(len(z))}})
+		if !m.Unspec {
+			c.Nontrivial(f)
+		}
+	}
 }
